@@ -262,3 +262,52 @@ func TestReducedAtomicityViolation(t *testing.T) {
 		t.Errorf("double fill (atomicity violation) not found")
 	}
 }
+
+// a thread that locks a mutex it already holds blocks for ever (sync.Mutex is not reentrant); one thread suffices
+func TestSelfDeadlock(t *testing.T) {
+	var a int
+	for _, second := range []string{"lock", "rlock"} {
+		for _, first := range []string{"lock", "rlock"} {
+			x := Run([]func(){func() {
+				hook.Sync(unsafe.Pointer(&a), first)
+				hook.Sync(unsafe.Pointer(&a), second)
+			}}, nil, Config{}, attach)
+			want := !(first == "rlock" && second == "rlock")
+			if x.Deadlock != want {
+				t.Errorf("%s then %s by one thread: deadlock=%v, want %v", first, second, x.Deadlock, want)
+			}
+		}
+	}
+}
+
+// recursive read locking deadlocks exactly when a writer announces itself between the two read locks
+func TestRecursiveReadLockWithWriter(t *testing.T) {
+	var a int
+	mk := func() []func() {
+		return []func(){
+			func() {
+				hook.Sync(unsafe.Pointer(&a), "rlock")
+				hook.Sync(unsafe.Pointer(&a), "rlock")
+				hook.Sync(unsafe.Pointer(&a), "runlock")
+				hook.Sync(unsafe.Pointer(&a), "runlock")
+			},
+			func() {
+				hook.Sync(unsafe.Pointer(&a), "wlock-announce")
+				hook.Sync(unsafe.Pointer(&a), "lock")
+				hook.Sync(unsafe.Pointer(&a), "unlock")
+			},
+		}
+	}
+	dl, ok := 0, 0
+	Explore(mk, attach, Options{Bound: -1}, func(x *Execution) string {
+		if x.Deadlock {
+			dl++
+		} else {
+			ok++
+		}
+		return "x"
+	})
+	if dl == 0 || ok == 0 {
+		t.Errorf("deadlocking schedules=%d, completing schedules=%d; want both > 0", dl, ok)
+	}
+}
